@@ -215,6 +215,34 @@ def run_c19(tier, seed):
                 tid = "d%d-h%d" % (di, hi)
                 traces.append({"id": tid, "device": sch, "dev": hdev.get(id(h), "ecu"), "events": evs})
                 tmeta[tid] = (sch, h)
+        # the schedulers of all devices of the schema called in ONE process, often with the same timestamp one after the other:
+        # each device's own calls must still be a behaviour of its own Sched machine (the devices share nothing)
+        sdevs = sorted({cdriver.device_of(im) for im in sch["impls"]} - {"global"})
+        if not is_gen and len(sdevs) >= 2:
+            xlines, xseqs = [], []
+            for xi in range(20 if tier == "quick" else 150):
+                t, seq = 0, []
+                for _ in range(rng.randint(4, 24)):
+                    if rng.random() < 0.6:
+                        t = (t + rng.choice([0, 1, 2, 3, 5, 7, 10, 100, (1 << 32) - 1, rng.randint(0, 40)])) % (1 << 32)
+                    seq.append((rng.choice(sdevs), t))
+                xseqs.append(seq)
+                xlines.append("X " + " ".join("%s %d" % (d, t) for d, t in seq))
+            rcx, outx = cdriver.run_driver(exe, xlines, timeout=600)
+            for xi, seq in enumerate(xseqs):
+                obs = parse_hist_output("S" + outx[xi][1:] if xi < len(outx) and outx[xi].startswith("X") else "", idm)
+                chk.count(1, traces=1)
+                if obs is None or len(obs) != len(seq):
+                    chk.violation("can_c.sched:driver-crashed:several-devices", {"schema_text": glue.schema_text(sch), "calls": seq,
+                                                                                "output": outx[xi] if xi < len(outx) else None})
+                    continue
+                for d in sdevs:
+                    evs = [{"op": "T", "t": glue.int_to_bits(t, 32), "sent": o} for (dd, t), o in zip(seq, obs) if dd == d]
+                    if not evs:
+                        continue
+                    tid = "d%d-x%d-%s" % (di, xi, d)
+                    traces.append({"id": tid, "device": sch, "dev": d, "events": evs})
+                    tmeta[tid] = (sch, [{"op": "T", "t": e["t"], "sent": []} for e in evs])
         shutil.rmtree(os.path.dirname(exe), ignore_errors=True)
     # canaries: an extra frame / a dropped frame / a changed byte must be rejected
     cans = []
